@@ -93,7 +93,7 @@ def validate(src, prop):
     return accepted
 
 
-def run(names, tier="quick", all_checks=False):
+def run(names, tier="quick", all_checks=False, seed=None):
     """Checks run against a scratch worktree of /repo's HEAD (VMON_REPO), so /repo itself stays untouched
     and other work can go on; the worktree is removed afterwards."""
     wt = "/tmp/vmon-seed-worktree"
@@ -101,13 +101,13 @@ def run(names, tier="quick", all_checks=False):
     rc, out = sh(f"git worktree add -q --detach {wt} HEAD", cwd=REPO)
     assert rc == 0, out
     try:
-        return _run(names, tier, all_checks, wt)
+        return _run(names, tier, all_checks, wt, seed)
     finally:
         sh(f"git worktree remove --force {wt}", cwd=REPO)
         sh("git worktree prune", cwd=REPO)
 
 
-def _run(names, tier, all_checks, wt):
+def _run(names, tier, all_checks, wt, seed=None):
     res_path = os.path.join(VERIF, "seeded", "RESULTS.json")
     results = json.load(open(res_path)) if os.path.exists(res_path) else {}
     checks = [c["property_id"] for c in json.load(open(os.path.join(VERIF, "MANIFEST.json")))["checks"]]
@@ -128,11 +128,13 @@ def _run(names, tier, all_checks, wt):
             r.pop("status", None)
             for cid in todo:
                 rc, out = sh(f"./check {cid} {tier}", cwd=VERIF, timeout=6 * 3600,
-                             env=dict(os.environ, VMON_REPO=wt, VMON_EVIDENCE_DIR=os.path.join(wt, ".vmon-evidence")))
+                             env=dict(os.environ, VMON_REPO=wt, VMON_EVIDENCE_DIR=os.path.join(wt, ".vmon-evidence"),
+                                      **({"VERIF_SEED": str(seed)} if seed is not None else {})))
                 mons = sorted(set(re.findall(r"violation monitor=(\S+)", out)))
                 verdict = {0: "missed", 1: "caught", 2: "inconclusive"}.get(rc, f"rc={rc}")
-                r.setdefault(tier, {})[cid] = dict(verdict=verdict, monitors=mons[:6])
-                print(f"{name} {cid} {tier}: {verdict} {mons[:3]}", flush=True)
+                tkey = tier if seed is None else f"{tier}@seed{seed}"
+                r.setdefault(tkey, {})[cid] = dict(verdict=verdict, monitors=mons[:6])
+                print(f"{name} {cid} {tkey}: {verdict} {mons[:3]}", flush=True)
         finally:
             sh("git checkout -- . && git clean -fdq -- eyecite tests", cwd=wt)
         json.dump(results, open(res_path, "w"), indent=1, sort_keys=True)
@@ -170,7 +172,11 @@ if __name__ == "__main__":
             tier = args[args.index("--tier") + 1]
             del args[args.index("--tier"):args.index("--tier") + 2]
         allc = "--all-checks" in args
+        seed = None
+        if "--seed" in args:
+            seed = int(args[args.index("--seed") + 1])
+            del args[args.index("--seed"):args.index("--seed") + 2]
         args = [a for a in args if not a.startswith("--")]
-        run(args, tier, allc)
+        run(args, tier, allc, seed)
     elif cmd == "table":
         print(table())
